@@ -19,6 +19,7 @@ type ReaderPlan struct {
 	FailAt    int    `json:"fail_at"`    // byte offset after which the reader fails; -1 never
 	WithData  bool   `json:"with_data"`  // deliver the last bytes together with the error
 	ZeroReads bool   `json:"zero_reads"` // sprinkle (0,nil) reads
+	Endless   string `json:"endless"`    // after the document, this line is delivered again and again: the input never ends
 }
 
 var noReaderFault = ReaderPlan{FailAt: -1}
@@ -32,6 +33,7 @@ type simReader struct {
 	Fired bool
 	Err   error
 	yield bool
+	EndlessReads int
 }
 
 // stubError returns the error value a stub fails with. The value varies with the plan so
@@ -82,6 +84,10 @@ func (r *simReader) Read(p []byte) (int, error) {
 			r.Fired = true
 			return 0, r.Err
 		}
+		if r.plan.Endless != "" {
+			r.EndlessReads++
+			return copy(p, r.plan.Endless), nil
+		}
 		return 0, io.EOF
 	}
 	n := limit - r.pos
@@ -111,6 +117,7 @@ type WriterPlan struct {
 	Short  bool `json:"short"`   // write #FailAt accepts half of its bytes and returns a nil error (one-off)
 	Once   bool `json:"once"`    // only write #FailAt fails; later writes succeed again (transient failure)
 	Full   bool `json:"full"`    // the failing write accepts all bytes AND returns the error (n == len(p), err != nil)
+	Stall  bool `json:"stall"`   // write #FailAt never returns (a stalled pipe)
 	ErrVariant int `json:"err_variant"`
 }
 
@@ -131,6 +138,7 @@ type simWriter struct {
 	Refused int // bytes offered but not accepted
 	Err     error
 	yield   bool
+	Stalled bool
 }
 
 func newSimWriter(plan WriterPlan, yield bool) *simWriter {
@@ -148,6 +156,10 @@ func (w *simWriter) Write(p []byte) (int, error) {
 	task := ""
 	if t := simrt.CurrentTask(); t != nil {
 		task = t.ID
+	}
+	if w.plan.Stall && idx == w.plan.FailAt {
+		w.Stalled = true
+		simrt.BlockForever("stub:0:writer-stalled@caller's io.Writer")
 	}
 	if w.plan.Short && idx == w.plan.FailAt && len(p) > 1 {
 		// a writer that breaks the io.Writer contract: short count, nil error
